@@ -79,13 +79,22 @@ impl<K: SimKernel<D>, const D: usize> Monitor<K, D> for C09 {
                     );
                 }
             }
+            // how many input positions lie farther apart than the duplicate tolerance (greedy)
+            let mut distinct: Vec<Vec<f64>> = Vec::new();
+            for v in verts {
+                let c = v.coords();
+                if !distinct.iter().any(|d| crate::exact::dist_sq_lt(d, &c, 1e-10)) {
+                    distinct.push(c);
+                }
+            }
+            let enough = if distinct.len() > D { "enough-distinct-positions" } else { "fewer-than-d-plus-1-distinct-positions" };
             for (i, v) in post.verts.iter().enumerate() {
                 let mut others = post.clone();
                 others.verts.remove(i);
                 if dup_model(&others, &v.coords) == Some(true) {
                     push_violation(
                         ctx.violations,
-                        violation("C09", "duplicate-committed", ctx.step, "op=new|construction".into(), format!("construction kept a vertex at {:?} within the duplicate tolerance of another kept vertex", v.coords)),
+                        violation("C09", "duplicate-committed", ctx.step, format!("op=new|construction|{enough}"), format!("construction kept a vertex at {:?} within the duplicate tolerance of another kept vertex", v.coords)),
                     );
                     break;
                 }
